@@ -50,7 +50,10 @@ def main():
     missed = 0
     with cf.ThreadPoolExecutor(j) as ex:
         for name, res in ex.map(lambda n: run(n, verify), names):
-            ok = all(v.startswith("rc=1") for k, v in res.items() if k.startswith("C"))
+            meta = json.load(open(os.path.join(HERE, "seeded", name, "meta.json")))
+            # a change judged to lie outside the property's domain (see its note) must leave the check quiet
+            want = "rc=0" if meta.get("outside_domain") else "rc=1"
+            ok = all(v.startswith(want) for k, v in res.items() if k.startswith("C"))
             missed += not ok
             print(("CAUGHT " if ok else "MISSED ") + name, json.dumps(res), flush=True)
     print("missed:", missed)
